@@ -80,6 +80,7 @@ package breaker
 //@ ghost var asked_closed bool
 //@ ghost var asked_halfopen bool
 //@ ghost var clock_read int64
+//@ ghost var acq_clock int64
 
 //@ func (*CircuitBreaker).transitionTo(b, target)
 //@   requires cb_wf(b)
@@ -100,7 +101,7 @@ package breaker
 //@   ensures b.state.v == int32(Open)
 //@   ensures already-open-keeps-deadline: old(b.state.v) == int32(Open) ==> b.openUntil.v == old(b.openUntil.v)
 //@   ensures b.lastFailure.v == old(b.lastFailure.v) && b.lastSuccess.v == old(b.lastSuccess.v)
-//@   modifies CircuitBreaker.state, CircuitBreaker.openUntil, elems(bucket), bucketWindow.cursor, bucketWindow.lastUpdate
+//@   modifies CircuitBreaker.state, CircuitBreaker.openUntil, elems(bucket), bucketWindow.cursor, bucketWindow.lastUpdate, ghost clock_read
 
 //@ func (*CircuitBreaker).toClosed(b)
 //@   requires cb_wf(b)
@@ -108,7 +109,7 @@ package breaker
 //@   ensures wf: cb_wf(b)
 //@   ensures b.state.v == int32(Closed)
 //@   ensures b.openUntil.v == old(b.openUntil.v)
-//@   modifies CircuitBreaker.state, CircuitBreaker.openUntil, elems(bucket), bucketWindow.cursor, bucketWindow.lastUpdate
+//@   modifies CircuitBreaker.state, CircuitBreaker.openUntil, elems(bucket), bucketWindow.cursor, bucketWindow.lastUpdate, ghost clock_read
 
 //@ func (*CircuitBreaker).toHalfOpen(b)
 //@   requires cb_wf(b)
@@ -116,7 +117,7 @@ package breaker
 //@   ensures wf: cb_wf(b)
 //@   ensures b.state.v == int32(HalfOpen)
 //@   ensures b.openUntil.v == old(b.openUntil.v)
-//@   modifies CircuitBreaker.state, CircuitBreaker.openUntil, elems(bucket), bucketWindow.cursor, bucketWindow.lastUpdate
+//@   modifies CircuitBreaker.state, CircuitBreaker.openUntil, elems(bucket), bucketWindow.cursor, bucketWindow.lastUpdate, ghost clock_read
 
 // record: the breaker opens exactly when the windowed totals observed by this
 // call reach the threshold with at least minRequests samples; otherwise it
@@ -135,10 +136,10 @@ package breaker
 //@ func (*CircuitBreaker).tryAcquire(b)
 //@   requires cb_wf(b)
 //@   requires !asked_halfopen
-//@   at call 1 of dynamic ghost clock_read = unixnano(result)
+//@   at call 1 of dynamic ghost acq_clock = unixnano(result)
 //@   ensures closed-admits-all: old(b.state.v) == int32(Closed) ==> result0 && !result1 && len(b.semCh) == old(len(b.semCh))
-//@   ensures open-rejects-until-timeout: old(b.state.v) == int32(Open) && clock_read < old(b.openUntil.v) ==> !result0 && !result1 && b.state.v == int32(Open) && !asked_halfopen
-//@   ensures timeout-moves-to-half-open: old(b.state.v) == int32(Open) && clock_read >= old(b.openUntil.v) ==> asked_halfopen && b.state.v == int32(HalfOpen)
+//@   ensures open-rejects-until-timeout: old(b.state.v) == int32(Open) && acq_clock < old(b.openUntil.v) ==> !result0 && !result1 && b.state.v == int32(Open) && !asked_halfopen
+//@   ensures timeout-moves-to-half-open: old(b.state.v) == int32(Open) && acq_clock >= old(b.openUntil.v) ==> asked_halfopen && b.state.v == int32(HalfOpen)
 //@   ensures probe-needs-free-slot: result1 ==> old(len(b.semCh)) < cap(b.semCh) && len(b.semCh) == old(len(b.semCh)) + 1
 //@   ensures probes-bounded: old(len(b.semCh)) <= cap(b.semCh) ==> len(b.semCh) <= cap(b.semCh)
 //@   ensures no-slot-no-call: old(b.state.v) != int32(Closed) && !result1 ==> !result0 && len(b.semCh) == old(len(b.semCh))
